@@ -75,10 +75,18 @@ impl SparqlValue {
                     "nonNegativeInteger" => Some(Self::Number(
                         SparqlNumber::try_parse_integer(lex)?.check(|n| !n.is_negative())?,
                     )),
-                    "unsignedLong" => Some(Self::Number(SparqlNumber::try_parse::<u64>(lex)?)),
-                    "unsignedInt" => Some(Self::Number(SparqlNumber::try_parse::<u32>(lex)?)),
-                    "unsignedShort" => Some(Self::Number(SparqlNumber::try_parse::<u16>(lex)?)),
-                    "unsignedByte" => Some(Self::Number(SparqlNumber::try_parse::<u8>(lex)?)),
+                    "unsignedLong" => Some(Self::Number(SparqlNumber::try_parse::<u64>(
+                        unsigned_lexical(lex),
+                    )?)),
+                    "unsignedInt" => Some(Self::Number(SparqlNumber::try_parse::<u32>(
+                        unsigned_lexical(lex),
+                    )?)),
+                    "unsignedShort" => Some(Self::Number(SparqlNumber::try_parse::<u16>(
+                        unsigned_lexical(lex),
+                    )?)),
+                    "unsignedByte" => Some(Self::Number(SparqlNumber::try_parse::<u8>(
+                        unsigned_lexical(lex),
+                    )?)),
                     "positiveInteger" => Some(Self::Number(
                         SparqlNumber::try_parse_integer(lex)?
                             .check(_number::SparqlNumber::is_positive)?,
@@ -245,6 +253,15 @@ impl PartialOrd for SparqlValue {
             (DateTime(Some(d1)), DateTime(Some(d2))) => d1.partial_cmp(d2),
             _ => None,
         }
+    }
+}
+
+/// The unsigned integer parsers of Rust reject every '-',
+/// but zero may be written with a minus sign in the unsigned XSD datatypes (e.g. "-0").
+fn unsigned_lexical(lex: &str) -> &str {
+    match lex.strip_prefix('-') {
+        Some(digits) if !digits.is_empty() && digits.bytes().all(|b| b == b'0') => digits,
+        _ => lex,
     }
 }
 
